@@ -45,7 +45,7 @@ CLAIMS.update({
     'C04': ('model_checking',
             'BoxOf in Geometry.tla is the exact floor/ceil of the true extent (irrational ellipse extents decided by comparing '
             'squares); TLC checks enclosure of every member lattice point and translation; every state replayed into '
-            'bounding_box and to_mask().bbox; random shapes on 1/2..1/16 pixel lattices validated by Trace_Geometry.tla.',
+            'bounding_box and to_mask().bbox; random shapes on 1/2..1/16 pixel lattices validated by Trace_Geometry.tla. Regular polygons: BBoxClosed!VCover on the vertex extent (2^-20 pixel units), validated by Trace_BBox.tla.',
             GEO_NOTE, 'TLA+ exact lattice model + TLC, spec->code replay, code->spec trace validation',
             'DESIGN.md section 5 C04', 'geometry'),
     'C08': ('model_checking',
@@ -74,13 +74,13 @@ CLAIMS.update({
             'copies get fresh identities and equal contents, copy-with-changes differs exactly in the named field, mutations never '
             'show in the other object, Eq is reflexive/symmetric and sees every field (unit re-expressions and sub-tolerance pixel '
             'offsets are the same value); every state is one implementation test incl. ==/!= both ways and copy.deepcopy; Lists.tla '
-            'does the same for sliced/copied Regions lists.',
+            'does the same for sliced/copied Regions lists. DictEq.tla: one meta/visual entry under every documented key x pairs of values (absent, None, default-like, empty, lists differing in length) x 7 classes, each pair replayed through ==/!= both ways.',
             OBJ_NOTE, 'TLA+ heap model + TLC, one implementation test per reachable state (spec->code)', 'DESIGN.md section 5 C16', 'objects'),
     'C17': ('model_checking',
             'Objects.tla: AllValid and RejectIsStutter are invariants over constructions (every class, valid and one-bad-argument '
             'lists), descriptor assignments with every catalogue token, deletions, all dict mutation entry points and whole-dict '
             'assignment; Lists.tla over Regions list operations. Every reachable state (pre, act, out, post) is replayed against the '
-            'real classes; TLC -simulate histories of depth 20 are replayed as call sequences.',
+            'real classes; TLC -simulate histories of depth 20 are replayed as call sequences. Dict updates holding a good and a bad key are all-or-nothing; every 4th state runs under enabled astropy unit equivalencies.',
             OBJ_NOTE + ' Open findings: annulus inner<outer not enforced on assignment; TextRegion.text deletable.',
             'TLA+ heap model + TLC, one implementation test per reachable state, simulated histories replayed', 'DESIGN.md section 5 C17', 'objects'),
 })
